@@ -74,7 +74,7 @@ void pbt_generate(Rng& r, int size, Case& c) {
   //                           app  pre  inspos rm  rmit rmfront rmback clear swap copy assign selfassign eq  setappend setremove insref recreate rmval
   static const int w02[] = {30, 12, 12, 14, 10, 4, 4, 1, 6, 2, 2, 1, 3, 3, 3, 0, 1, 6};
   static const int w04[] = {24, 8, 8, 8, 8, 3, 3, 2, 4, 5, 5, 5, 1, 4, 4, 8, 5, 4};
-  static const int w05[] = {34, 12, 12, 8, 8, 3, 3, 0, 8, 1, 1, 0, 1, 2, 1, 0, 0, 4};
+  static const int w05[] = {34, 12, 12, 8, 8, 3, 3, 1, 8, 1, 1, 0, 1, 2, 1, 0, 0, 4};
   static const char* names[] = {"append", "prepend", "inspos", "rm", "rmit", "rmfront", "rmback", "clear", "swap", "copy", "assign", "selfassign", "eq", "setappend", "setremove", "insref", "recreate", "rmval"};
   const int* w = pf == P_C04 ? w04 : pf == P_C05 ? w05 : w02;
   for (int k = 0; k < nops; ++k) {
